@@ -132,6 +132,32 @@ fn format_decimal(n: f64) -> String {
     }
 }
 
+/// ECMAScript ToUint32: truncate toward zero, then wrap modulo 2^32.
+/// NaN and the infinities map to 0.
+pub fn to_uint32(n: f64) -> u32 {
+    if !n.is_finite() {
+        return 0;
+    }
+    if n > -9_223_372_036_854_775_808.0 && n < 9_223_372_036_854_775_808.0 {
+        // |n| < 2^63: `as i64` truncates toward zero exactly, `as u32` keeps the low 32 bits
+        return (n as i64) as u32;
+    }
+    // |n| >= 2^63: n is the integer m * 2^e with a 53-bit m and e >= 11
+    let bits = n.to_bits();
+    let e = ((bits >> 52) & 0x7ff) as u32 - 1075;
+    if e >= 32 {
+        return 0;
+    }
+    let m = (bits & 0x000f_ffff_ffff_ffff) | 0x0010_0000_0000_0000;
+    let low = (m << e) as u32;
+    if n < 0.0 { low.wrapping_neg() } else { low }
+}
+
+/// ECMAScript ToInt32: truncate toward zero, then wrap modulo 2^32 into the signed range.
+pub fn to_int32(n: f64) -> i32 {
+    to_uint32(n) as i32
+}
+
 /// Convert a JavaScript string to a number according to ECMAScript ToNumber.
 ///
 /// The string is first trimmed of leading and trailing whitespace.
